@@ -14,6 +14,7 @@ void register_c12();
 void register_c19();
 void register_c15();
 void register_c17();
+void register_c13();
 void register_all_properties() {
   static bool done = false;
   if (done) return;
@@ -31,5 +32,6 @@ void register_all_properties() {
   register_c19();
   register_c15();
   register_c17();
+  register_c13();
 }
 }
